@@ -92,7 +92,7 @@ def check_bmc(ast, unit, wd):
         L = cdns2c.Lower(ast, opaque=opaque)
         fns = [L.lower_function(find_one(ast, ref)) for ref in unit.fns]
         have = set(f.cname for f in fns) | set(unit.stubs)
-        missing = sorted(set(c for f in fns for c in f.calls if c not in have))
+        missing = sorted(set(c for f in fns for c in f.calls if c not in have and not any(re.match(rx + '$', c) for rx in unit.stubs)))
         if missing:
             raise LowerError('unresolved callees: ' + ', '.join(missing))
         parts = ['#define %s' % d for d in unit.defines]
